@@ -857,23 +857,47 @@ Example outcome_paths_exist :
   ret [Start 20 true; LPre 0; LReg 0; LLock 0; LDialOk 0; LEnq 0; LClean 0; LPost 0] 0%nat = Some Sent.
 Proof. vm_compute. repeat split; reflexivity. Qed.
 
+(* ---- the effective timeout: the caller's deadline wins, then the per-call timeout, then the proxy's; a configured
+   timeout of zero or below is a deadline that has passed ---- *)
+Theorem eff_caller_deadline_wins : forall p pc d, eff_of (mktmo p pc (Some d)) = d.
+Proof. reflexivity. Qed.
+Theorem eff_percall_over_proxy : forall p q, eff_of (mktmo p (Some q) None) = Z.to_N q.
+Proof. reflexivity. Qed.
+Theorem eff_proxy_default : forall p, eff_of (mktmo p None None) = Z.to_N p.
+Proof. reflexivity. Qed.
+Theorem eff_nonpositive_expired : forall t, t_ctx t = None -> (configured t <= 0)%Z -> eff_of t = 0.
+Proof. intros [p pc cx] H Hc. cbn in *. subst cx. unfold eff_of. cbn. lia. Qed.
+(* a call started with an expired deadline and a silent peer returns the timeout error at the instant it started *)
+Example zero_timeout_returns_at_once :
+  let '(s, _, ok) := canonical (mkscen (mkcfg 30 40 10 4 100000 60000) CAccept [mkact false None false false] 1 2 (mktmo (-5) None None) [1] false None 0 false) in
+  ok = true /\ model_calls s = [(OTimeout, 0); (OTimeout, 0)] /\ queueLen s = 0%Z /\ invokeNum s = 0%Z /\ resp s = [].
+Proof. vm_compute. repeat split; reflexivity. Qed.
+Example cancelled_call_returns_at_once :
+  let '(s, _, ok) := canonical (mkscen (mkcfg 30 40 10 4 100000 60000) CAccept [mkact false None false false] 1 1 (mktmo 30 None None) [0] false (Some 8) 0 false) in
+  ok = true /\ model_calls s = [(OTimeout, 8)] /\ queueLen s = 0%Z /\ invokeNum s = 0%Z /\ resp s = [].
+Proof. vm_compute. repeat split; reflexivity. Qed.
+Example rejected_calls_leave_nothing :
+  let '(s, _, ok) := canonical (mkscen (mkcfg 30 40 10 4 100000 60000) CAccept [mkact false (Some 0) false false] 1 4 (mktmo 30 None None) [1] false None 2 false) in
+  ok = true /\ map fst (model_calls s) = [OReply; OError; OReply; OError] /\ queueLen s = 0%Z /\ invokeNum s = 0%Z /\ resp s = [].
+Proof. vm_compute. repeat split; reflexivity. Qed.
+
 (* ---- non-vacuity: concrete reachable runs ---- *)
 Example silent_peer_times_out :
-  let '(s, _, ok) := canonical (mkscen (mkcfg 30 40 10 4 100000 60000) CAccept [mkact false None false false] 1 1 20 [0] false None 0 false) in
+  let '(s, _, ok) := canonical (mkscen (mkcfg 30 40 10 4 100000 60000) CAccept [mkact false None false false] 1 1 (mktmo 20 None None) [0] false None 0 false) in
   ok = true /\ model_calls s = [(OTimeout, 20)] /\ queueLen s = 0%Z /\ invokeNum s = 0%Z /\ resp s = [].
 Proof. vm_compute. repeat split; reflexivity. Qed.
 
 Example late_then_fast_replies :
-  let '(s, _, ok) := canonical (mkscen (mkcfg 30 40 10 4 100000 60000) CAccept [mkact false (Some 30) false false; mkact false (Some 0) false false] 1 2 20 [1] false None 0 false) in
+  let '(s, _, ok) := canonical (mkscen (mkcfg 30 40 10 4 100000 60000) CAccept [mkact false (Some 30) false false; mkact false (Some 0) false false] 1 2 (mktmo 20 None None) [1] false None 0 false) in
   ok = true /\ model_calls s = [(OTimeout, 20); (OReply, 0)] /\ queueLen s = 0%Z /\ invokeNum s = 0%Z /\ resp s = [].
 Proof. vm_compute. repeat split; reflexivity. Qed.
 
 Example one_way_returns_at_once :
-  let '(s, _, ok) := canonical (mkscen (mkcfg 30 40 10 4 100000 60000) CAccept [mkact false None false false] 1 2 20 [1] true None 0 false) in
+  let '(s, _, ok) := canonical (mkscen (mkcfg 30 40 10 4 100000 60000) CAccept [mkact false None false false] 1 2 (mktmo 20 None None) [1] true None 0 false) in
   ok = true /\ model_calls s = [(OSent, 0); (OSent, 0)] /\ queueLen s = 0%Z /\ invokeNum s = 0%Z /\ resp s = [].
 Proof. vm_compute. repeat split; reflexivity. Qed.
 
 Example stalled_three_callers :
-  let '(s, _, ok) := canonical (mkscen (mkcfg 30 40 10 4 100000 60000) CStall [mkact false None false false] 3 1 10 [0] false None 0 false) in
+  let '(s, _, ok) := canonical (mkscen (mkcfg 30 40 10 4 100000 60000) CStall [mkact false None false false] 3 1 (mktmo 10 None None) [0] false None 0 false) in
   ok = true /\ model_calls s = [(OError, 30); (OError, 60); (OError, 90)].
 Proof. vm_compute. repeat split; reflexivity. Qed.
